@@ -123,6 +123,21 @@ def run(prop, tier):
             next_id += 1
 
     recs = replay_passes.run_many(jobs)
+    # wild traces: the simplifier calls the repository's own tests make, recorded under FUNC_ADL_VERIF=1
+    nwild = 0
+    if prop in ("C02", "C18"):
+        import wild
+        for w in wild.pass_records(prop, "simplify", next_id):
+            if w["in"]["k"] in ("opaque", "malformed") or (w["exc"] == "" and w["out"]["k"] in ("opaque", "malformed")):
+                continue
+            w["id"] = next_id
+            jobs.append((next_id, "simplify", w["in"], {"shape": False}))
+            recs.append({"id": next_id, "in": w["in"], "out": w["out"], "exc": w["exc"],
+                         "flags": {"compiles": w["flags"]["compiles"], "shape": False}})
+            next_id += 1
+            nwild += 1
+        fam_counts["wild (repository tests under the recorder)"] = {
+            "generated": nwild, "replayed": nwild, "budget": 0, "exhaustive": True, "suite": wild.suite_summary()}
     # validation records: drop what TLC does not need
     vrecs = [{"id": r["id"], "pass": "simplify", "in": r["in"], "out": r["out"], "exc": r["exc"],
               "flags": {"compiles": r["flags"]["compiles"], "shape": r["flags"]["shape"]}} for r in recs]
